@@ -53,7 +53,7 @@ theorem ok_exactly_one (w : World) (o f : Nat) (a : Args) (m : Mock) (hm : w.moc
     refine ⟨fun h => absurd h hrej, fun _ => ?_⟩
     rw [heq]
     simp [List.filter_append, filter_ok_log, filter_ok_trace, rep, Ev.isOk, List.filter]
-  | blocked e x r hfind hx hhi hord heq =>
+  | blocked e x r hfind hx hhi hord hrk0 heq =>
     have hrej : ¬ C01.Accepted (w.callFn o f a).2 := by
       intro hacc
       have := hacc (w.rep .fatal r) (by rw [heq]; simp)
